@@ -162,7 +162,7 @@ class Attempt:
                 self.hj = True
             elif fld == "fl":
                 pass  # Flush attempt: the buffering writer offers no Flusher, nothing may reach the client early
-            elif p[0] == "r":
+            elif p[0] in ("r", "rc", "rn", "rp"):  # how the handler reads (ReadAll/ReadFull, io.Copy, io.CopyN, small Reads)
                 self.read = None if p[1] == "all" else int(p[1])
             elif p[0] in ("hs", "ha", "hd"):
                 self.ops.append(p)
@@ -374,6 +374,10 @@ def monitor_c07(ops, outs):
     return bad
 
 
+ERR_TEXT = {500: b"Internal Server Error", 502: b"Bad Gateway", 504: b"Gateway Timeout", 499: b"Client Closed Request",
+            413: b"Request Entity Too Large"}
+
+
 def monitor_c15(ops, outs):
     bad = []
     for kind, cfg, req, o in exchanges(ops, outs):
@@ -396,6 +400,10 @@ def monitor_c15(ops, outs):
                 data = a.data()
                 blen = int(out.body.split(":")[0]) if out.body else 0
                 leaked = blen > 0 and out.body == show_bytes(data[:blen])
+                # "none of its bytes reach the client": the body (recorded at the writer and, cl=ok, received byte for byte
+                # by the real client) is exactly the error handler's text for that status, nothing appended or prepended
+                if out.status in ERR_TEXT and out.body != show_bytes(ERR_TEXT[out.status]):
+                    leaked = True
                 if out.status is None or out.status < 400 or leaked or out.cl != "ok":
                     bad.append("response-limit: response of %d bytes > max %d delivered as status %s body %s client %s" % (a.total(), cfg.maxresp, out.status, out.body, out.cl))
             # spill: an accepted response larger than the memory threshold sits in a temporary file while the handler returns
@@ -459,13 +467,13 @@ def gen_attempt(rng, c, reqlen, focus, will_retry_bias):
     f = []
     r = rng.random()
     if r < 0.45:
-        f.append("r:all")
+        f.append(rng.choice(["r", "r", "rc", "rc", "rp"]) + ":all")
     elif r < 0.6:
         f.append("r:0")
     elif r < 0.9:
-        f.append("r:%d" % rng.randint(0, max(1, reqlen)))
+        f.append("%s:%d" % (rng.choice(["r", "r", "rc", "rn", "rp"]), rng.randint(0, max(1, reqlen))))
     else:
-        f.append("r:%d" % (reqlen + rng.randint(1, 50)))
+        f.append("%s:%d" % (rng.choice(["r", "rc", "rn", "rp"]), reqlen + rng.randint(1, 50)))
     for _ in range(rng.choice([0, 0, 1, 1, 2]) if focus == "C06" else rng.choice([0, 0, 0, 1])):
         k = rng.choice(["X-A", "X-B", "X-C", "X-N", "User-Agent", "Accept"])
         op = rng.choice(["hs", "ha", "hd"])
